@@ -306,12 +306,16 @@ def check_defaults(run: lib.Run, audit: dict, violations: list, scale: int = 1):
         "engine": real.run_guard(w["policy"], w["request"], {})["ok"]["effect"],
         "engine (set)": real.run_guard({"policies": [w["policy"]]}, w["request"], {})["ok"]["effect"],
     }
-    lint_issues = [i.get("code") for i in rlint.analyze_policy({"rules": [
-        {"id": "p", "effect": "permit", "actions": ["read"], "resource": {"type": "doc"}},
-        {"id": "d", "effect": "deny", "actions": ["read"], "resource": {"type": "doc"}}]})]
-    lint_explicit = [i.get("code") for i in rlint.analyze_policy({"algorithm": "deny-overrides", "rules": [
-        {"id": "p", "effect": "permit", "actions": ["read"], "resource": {"type": "doc"}},
-        {"id": "d", "effect": "deny", "actions": ["read"], "resource": {"type": "doc"}}]})]
+    _p = {"id": "p", "effect": "permit", "actions": ["read"], "resource": {"type": "doc"}}
+    _d = {"id": "d", "effect": "deny", "actions": ["read"], "resource": {"type": "doc"}}
+    _q = {"id": "q", "effect": "permit", "actions": ["read", "write"], "resource": {"type": "doc", "id": "1"}}
+    lint_issues, lint_explicit = [], []
+    for rules in ([_p, _d], [_d, _p], [_d, _q, _p], [_q, _d]):
+        explicit = sorted(str(i.get("code")) for i in rlint.analyze_policy({"algorithm": "deny-overrides", "rules": rules}))
+        # no algorithm named = absent, null or empty (a blank `algorithm:` line in YAML arrives as null)
+        for variant in ({}, {"algorithm": None}, {"algorithm": ""}):
+            lint_issues.append(sorted(str(i.get("code")) for i in rlint.analyze_policy({**variant, "rules": rules})))
+            lint_explicit.append(explicit)
     for name, dec in paths.items():
         run.count(f"default:{name}:{dec}")
         run.evaluations += 1
